@@ -696,7 +696,12 @@ class LangServer:
                 tmp_list = []
                 if name_replace is None:
                     name_replace = candidate.name
-                for member in candidate.mems:
+                # (a dummy procedure declared with a generic interface is a
+                # Method whose link is the interface)
+                members = getattr(candidate, "mems", None)
+                if members is None:
+                    members = getattr(candidate.link_obj, "mems", [])
+                for member in members:
                     tmp_text, _ = member.get_snippet(name_replace)
                     if tmp_list.count(tmp_text) > 0:
                         continue
@@ -1164,7 +1169,10 @@ class LangServer:
                 )
             )
         elif var_type == INTERFACE_TYPE_ID:
-            for member in var_obj.mems:
+            members = getattr(var_obj, "mems", None)
+            if members is None:
+                members = getattr(var_obj.link_obj, "mems", [])
+            for member in members:
                 hover_str, docs = member.get_hover(long=True)
                 if hover_str is not None:
                     hover_array.append(create_hover(hover_str, docs))
